@@ -1,8 +1,9 @@
 __all__ = ["parse_assignment"]
 
 from functools import reduce
+from math import isfinite
 
-from parsita import ParseError, ParserContext, lit, reg, rep, rep1sep, repsep
+from parsita import ParseError, ParserContext, lit, pred, reg, rep, rep1sep, repsep
 from parsita.util import splat
 from returns import result
 
@@ -24,8 +25,14 @@ def make_expression(first, rest):
 class TensorExpressionParsers(ParserContext, whitespace=r"[ ]*"):
     name = reg(r"[A-Za-z][A-Za-z0-9]*")
 
-    floating_point = reg(r"\d+((\.\d+([Ee][+-]?\d+)?)|((\.\d+)?[Ee][+-]?\d+))") > (
-        lambda x: Float(float(x))
+    # A literal too large for a float would become inf, which has no literal representation
+    floating_point = (
+        pred(
+            reg(r"\d+((\.\d+([Ee][+-]?\d+)?)|((\.\d+)?[Ee][+-]?\d+))") > float,
+            isfinite,
+            "finite floating point literal",
+        )
+        > Float
     )
     integer = reg(r"[0-9]+") > (lambda x: Integer(int(x)))
     number = floating_point | integer
